@@ -316,5 +316,63 @@ def check(run, replay=None):
                     return 'PGN126996.product_information:byte %d of the answer is %s, the published layout with the configured strings has %s (length %d / %d)' % (
                         k, '%02x' % payload[k] if k < len(payload) else '-', '%02x' % want[k] if k < len(want) else '-', len(payload), len(want))
             return None if n == 2 else 'PGN126996.answers:%d answers to two requests' % n
+        # PGN 60928 as a node builds it from the device information the application sets at run time: SetDeviceInformation (unique number,
+        # function, class, manufacturer code, industry group) and SetDeviceInformationInstances (device instance lower / upper, system
+        # instance; one call may give all three), then SendIsoAddressClaim: the NAME on the bus decoded against the published bit layout (seed C15-13)
+        if not preplay:
+            for _ in range(14 if run.tier == 'quick' else 300):
+                ndev = r.choice([1, 2])
+                i = r.randrange(ndev)
+                ops = []
+                for _k in range(r.randint(1, 4)):
+                    if r.random() < 0.5:
+                        ops.append('I %d %d %d %d' % (i, r.choice([255, 0, 1, 5, 7]), r.choice([255, 0, 1, 3, 31]), r.choice([255, 0, 2, 15])))
+                    else:
+                        ops.append('D %d %d %d %d %d %d' % (i, r.choice([4294967295, 0, 1, 2097151, 123456]), r.choice([255, 0, 130, 200]), r.choice([255, 0, 25, 127]), r.choice([65535, 0, 275, 2047]), r.choice([255, 0, 4, 7])))
+                    ops.append('Q ac 255 %d 0' % i)
+                pcases.append('NODE mode=1 ndev=%d src=%d q=40 slots=5 t0=5000 | %s' % (ndev, r.choice([22, 100]), ' ; '.join(ops)))
+
+        def name_oracle(case, res):
+            if res.startswith('crash') or res.startswith('oob'):
+                return 'memory:' + res
+            head, opss = case.split('|', 1)
+            kv = dict(x.split('=', 1) for x in head.split()[1:] if '=' in x)
+            ndev = int(kv['ndev'])
+            # the library's defaults: unique number 1+i, manufacturer 2046, instances 0, function 130, class 25, industry group 4
+            f = [dict(uq=1 + j, mf=2046, lo=0, up=0, fn=130, cl=25, si=0, ig=4) for j in range(ndev)]
+            per_op, _st = parse_result(res)
+            for k, (o, evs) in enumerate(zip([x.split() for x in opss.split(';')], per_op)):
+                if not o:
+                    continue
+                if o[0] == 'I':
+                    j, lo_, up_, si_ = (int(x) for x in o[1:5])
+                    if lo_ != 255: f[j]['lo'] = lo_ & 7
+                    if up_ != 255: f[j]['up'] = up_ & 31
+                    if si_ != 255: f[j]['si'] = si_ & 15
+                elif o[0] == 'D':
+                    j, uq, fn, cl, mf, ig = (int(x) for x in o[1:7])
+                    if uq != 4294967295: f[j]['uq'] = uq & 0x1fffff
+                    if fn != 255: f[j]['fn'] = fn
+                    if cl != 255: f[j]['cl'] = cl & 0x7f
+                    if mf != 65535: f[j]['mf'] = mf & 0x7ff
+                    if ig != 255: f[j]['ig'] = ig & 7
+                elif o[0] == 'Q' and o[1] == 'ac':
+                    j = int(o[3])
+                    fr = [e for e in evs if e[0] == 'tx' and ((e[1] >> 8) & 0x1ff00) == 60928]
+                    if len(fr) != 1 or len(fr[0][3]) != 8:
+                        return 'PGN60928.frames:op %d: %d address claim frame(s)' % (k, len(fr))
+                    nm = int.from_bytes(bytes(fr[0][3]), 'little')
+                    g = f[j]
+                    got = dict(uq=nm & 0x1fffff, mf=(nm >> 21) & 0x7ff, lo=(nm >> 32) & 7, up=(nm >> 35) & 31, fn=(nm >> 40) & 0xff, cl=(nm >> 49) & 0x7f, si=(nm >> 56) & 15, ig=(nm >> 60) & 7)
+                    for key, label in (('uq', 'unique_number'), ('mf', 'manufacturer_code'), ('lo', 'device_instance_lower'), ('up', 'device_instance_upper'), ('fn', 'device_function'),
+                                       ('cl', 'device_class'), ('si', 'system_instance'), ('ig', 'industry_group')):
+                        if got[key] != g[key]:
+                            return 'PGN60928.%s:op %d: the address claim carries %d, the application set %d (NAME %016x)' % (label, k, got[key], g[key], nm)
+                    if (nm >> 48) & 1 or not (nm >> 63) & 1:
+                        return 'PGN60928.reserved:op %d: reserved bit / arbitrary-address-capable bit wrong in NAME %016x' % (k, nm)
+            return None
+
+        def node_oracle(case, res):
+            return prod_oracle(case, res) if ('prod=' in case.split('|')[0]) else name_oracle(case, res)
         for fs in ('w64', 'w32'):
-            vlib.correspond(run, 'prodinfo-progmem-' + fs, 'h_node', fs, 'NODE', pcases, prod_oracle, None, model_args=[fs])
+            vlib.correspond(run, 'prodinfo-progmem-' + fs, 'h_node', fs, 'NODE', pcases, node_oracle, None, model_args=[fs])
